@@ -299,6 +299,7 @@ type funcSpec struct {
 }
 
 var funcSpecs = []funcSpec{
+	{pkg: "snaps", name: "escapeFormat", sig: "s:string->string"},
 	{pkg: "snaps", name: "constructFilename", sig: "c:*Config,callerFilename:string,tName:string,isStandalone:bool->string"},
 	{pkg: "snaps", name: "snapshotPath", sig: "c:*Config,tName:string,isStandalone:bool->string,string",
 		extra:   []param{{"trimpath", tBool}, {"caller", tText}},
